@@ -39,8 +39,8 @@ func c04CheckSweep(c *kit.Case, in c04SweepIn) {
 		c.Class("out_of_domain")
 		return
 	}
-	if m.Flags["pc_not_instr_start"] || m.Flags["self_branch_taken"] {
-		c.Class("out_of_domain_or_known")
+	if m.Flags["pc_not_instr_start"] {
+		c.Class("out_of_domain")
 		return
 	}
 	if prog := m.P; uint64(st.PC) < uint64(len(prog.Code)) && !prog.IsBlockStart(uint64(st.PC)) {
